@@ -20,6 +20,7 @@ ValOK(r, v) ==
   /\ Chk("entries", ToSet(r.ent) = v.ent)
   /\ Chk("no-duplicates", Len(r.ent) = Cardinality(v.ent))
   /\ Chk("num_retained", r.n = Len(r.ent))
+  /\ Chk("seed-hash", Has(r, "seedHash") => r.seedHash = r.xSeedHash)
   /\ Chk("empty", r.empty = v.empty)
   /\ Chk("ordered-list", r.ordered => Asc(r.ent))
   /\ Chk("all-below-theta", \A x \in ToSet(r.ent) : x < r.thetaH)
@@ -90,8 +91,13 @@ TWrap == IsEvent("Wrap") /\ LET e == Log[l]  b == blob[e.blob] IN
              /\ Chk("ordered-flag", e.r.ordered = b.val.ordered /\ e.r2.ordered = b.val.ordered)
              /\ cv' = (e.dst :> b.val) @@ cv /\ UNCHANGED <<obj, blob>>
 
+\* a refused builder setter leaves the builder as it was (the New event that follows states the configuration);
+\* an image is refused with another seed unless it is empty
+TBuilderRefusal == IsEvent("BuilderRefusal") /\ Chk("invalid-setting-refused", Log[l].refused = Log[l].of) /\ UNCHANGED <<obj, cv, blob>>
+TSeedMismatch == IsEvent("SeedMismatch") /\ Chk("C09:other-seed-refused", Log[l].refused) /\ UNCHANGED <<obj, cv, blob>>
+
 TInit == obj = <<>> /\ l = 1 /\ cv = <<>> /\ blob = <<>>
 TNext == TBegin \/ TNew \/ TUpdate \/ TUpdateIgnored \/ TTrim \/ TReset \/ TObs \/ TCopy \/ TCompact
-         \/ TSer \/ TDeser \/ TWrap \/ TInject
+         \/ TSer \/ TDeser \/ TWrap \/ TInject \/ TBuilderRefusal \/ TSeedMismatch
 TSpec == TInit /\ [][TNext]_tvars
 ====
